@@ -52,6 +52,11 @@ def plan (c : Cfg) (headOk : Bool) (contentLength : Int) (acceptRangesBytes : Bo
   else if contentLength > c.maxFetch then .tooLarge
   else .parallel (numChunks contentLength.toNat (chunkSizeOf c)) (chunkSizeOf c)
 
+/-- `fetchSimple` (the fallback): one GET; a non-200 status or a body larger than `MaxFetchBytes`
+is an error, otherwise the body is returned as it is (no content encoding). -/
+def fetchSimple (maxFetch : Int) (status : Nat) (body : Bytes) : Option Bytes :=
+  if status ≠ 200 then none else if (body.length : Int) > maxFetch then none else some body
+
 /-! ### One attempt -/
 
 /-- The bytes chunk `i` asks for: `bytes=i*cs-(min((i+1)*cs, len)-1)`. -/
